@@ -151,6 +151,25 @@ CLAIMED["C07"] = dict(
         "in /repo (fix: commits c6384dd 583a316 f838025 b25d005 6ccd373 f67341e e9c698a).",
    technique="Coq proof: invariant preserved by every operation (two kinds of local change), induction over operation sequences + "
              "stepwise correspondence on random operation sequences + invariant oracle on the implementation", design="§8 C07")
+CLAIMED["C08"] = dict(
+   text="Machine-checked proof (Coq), partial: a model of FunctionParser.parse_params and of Python's own argument binding; proved for "
+        "every signature and call: each given positional argument lands at its own index, converted by its parameter's field and "
+        "unchanged for an excluded parameter, nothing dropped or shifted (C08_positional_arguments_keep_their_index); the first "
+        "unconvertible argument makes the parse signal an error and then the body does not run (C08_failing_argument_signals, "
+        "C08_call_outcome); defaults of omitted positional-only parameters are only ever appended at the index of their own parameter "
+        "(C08_positional_only_defaults_at_their_index); otherwise the body receives what Python binds from the parsed arguments, and "
+        "that binding names every parameter exactly once in signature order (C08_binding_binds_each_parameter_once).",
+   note="Trusted: Coq kernel; Model/Func.v as a description of func.py parse_params and of CPython's call binding (tied by the calls "
+        "suite: decorated functions returning their locals, and by the python-binding suite: py_bind against CPython binding the "
+        "undecorated twins). Partial: that the final binding equals Python's binding of the original call with each parameter "
+        "converted, Param aliases, instance / class / static methods, return annotations, coroutines, generators and async generators "
+        "(lazy and eager) are decided on the implementation by the signature-bind and results-and-generators oracle suites (CPython's "
+        "binding of the undecorated twin as the oracle), not proved. Not modelled: typed **kwargs, Param dependencies, calls giving one "
+        "parameter twice (Python rejects them), the instance-method guess for '@staticmethod over @utype.parse' with a bare first "
+        "parameter. Excluded (underscore-prefixed) parameters given by keyword are dropped by design (tests/test_func.py) and are not "
+        "generated. Two genuine defects repaired in /repo (fix: 43b9b80 and the positional-only default commit).",
+   technique="Coq proofs over the model of parse_params and of Python's binding (pure mirror via the verdict framework) + call "
+             "correspondence + CPython-binding oracle on the implementation", design="§8 C08")
 NOT_YET = {}
 for i in range(1, 21):
     pid = "C%02d" % i
